@@ -59,7 +59,8 @@ class VarInfo:
     flag: int | None = None   # bitset where a boolean variable is true; None unknown
     anyflag: int | None = None  # for tuples of booleans: valuations where any() of it is true
     parts: tuple | None = None  # per-position infos of a tuple value (function results)
-    eager_ctor: bool = False    # built by a NumPy constructor that does not look at its input's data (np.full, np.zeros ...)
+    eager_ctor: int = 0         # bitset: valuations under which the value was built by a NumPy constructor that ignores its input's
+                                # array type (np.full, np.zeros ...): an in-memory array whatever the inputs are
 
 
 NOCHUNK = VarInfo()
@@ -731,7 +732,8 @@ class _FuncLazy:
             if x.parts is not None and y.parts is not None and len(x.parts) == len(y.parts):
                 parts = tuple(_FuncLazy._join_vars({0: p}, {0: q}, pa, pb)[0] for p, q in zip(x.parts, y.parts))
             out[k] = VarInfo(chunk=chunk, exact=exact, kind=x.kind if x.kind == y.kind else ("array" if "array" in (x.kind, y.kind) else "other"),
-                             flag=fl, anyflag=af, parts=parts, eager_ctor=x.eager_ctor and y.eager_ctor)
+                             flag=fl, anyflag=af, parts=parts,
+                             eager_ctor=((x.eager_ctor & pa) | (y.eager_ctor & pb)) if (pa is not None and pb is not None) else (x.eager_ctor | y.eager_ctor))
         return out
 
     # -- calls ---------------------------------------------------------------------------------------------
@@ -768,7 +770,7 @@ class _FuncLazy:
                 if len(c) == 1:
                     flox = c
         if any(n in EAGER_CONSTRUCTORS for n in ext):
-            return VarInfo(kind="array", eager_ctor=True)
+            return VarInfo(kind="array", eager_ctor=P)
         for name in ext:
             pos = MATERIALISE_FUNCS.get(name)
             if pos is not None:
@@ -1019,12 +1021,12 @@ class _FuncLazy:
                     v = self.ch(a.value, P, vs)
                     v = replace(v, chunk=v.chunk & P, parts=None if v.parts is None else tuple(replace(x, chunk=x.chunk & P) for x in v.parts))
                 first = v.parts[0] if v.parts else v
-                if first.eager_ctor:
+                if first.eager_ctor & P:
                     # an in-memory array is returned on a path on which an array parameter may still be chunked
                     for pname in self.f.params:
                         b = self.atoms.bit(f"ch:{pname}")
                         info = vs.get(pname)
-                        if b is not None and (P & b) and self._param_kind(pname) == "array":
+                        if b is not None and (first.eager_ctor & P & b) and self._param_kind(pname) == "array":
                             self.sink(a, f"returns an in-memory array built by a NumPy constructor ({norm(a.value)[:40]}) although {pname!r} may be chunked "
                                       "(the caller gets an eager result instead of a lazy one)", P & b)
                 if self.ret is None:
